@@ -28,6 +28,12 @@ Lemma skel_unmarshal_TagLongArray_ok : C03gen.skel_unmarshal_TagLongArray = C03_
 Proof. reflexivity. Qed.
 Lemma skel_unmarshal_TagList_ok : C03gen.skel_unmarshal_TagList = C03_expected.skel_unmarshal_TagList.
 Proof. reflexivity. Qed.
+Lemma skel_unmarshal_TagCompound_ok : C03gen.skel_unmarshal_TagCompound = C03_expected.skel_unmarshal_TagCompound.
+Proof. reflexivity. Qed.
+Lemma skel_indirect_ok : C03gen.skel_indirect = C03_expected.skel_indirect.
+Proof. reflexivity. Qed.
+Lemma skel_unmarshal_head_ok : C03gen.skel_unmarshal_head = C03_expected.skel_unmarshal_head.
+Proof. reflexivity. Qed.
 Lemma skel_dynbt_unmarshal_ok : C03gen.skel_dynbt_unmarshal = C03_expected.skel_dynbt_unmarshal.
 Proof. reflexivity. Qed.
 Lemma skel_dynbt_readTag_ok : C03gen.skel_dynbt_readTag = C03_expected.skel_dynbt_readTag.
@@ -51,6 +57,9 @@ Theorem all_skel_ok :
   C03gen.skel_unmarshal_TagIntArray = C03_expected.skel_unmarshal_TagIntArray /\
   C03gen.skel_unmarshal_TagLongArray = C03_expected.skel_unmarshal_TagLongArray /\
   C03gen.skel_unmarshal_TagList = C03_expected.skel_unmarshal_TagList /\
+  C03gen.skel_unmarshal_TagCompound = C03_expected.skel_unmarshal_TagCompound /\
+  C03gen.skel_indirect = C03_expected.skel_indirect /\
+  C03gen.skel_unmarshal_head = C03_expected.skel_unmarshal_head /\
   C03gen.skel_dynbt_unmarshal = C03_expected.skel_dynbt_unmarshal /\
   C03gen.skel_dynbt_readTag = C03_expected.skel_dynbt_readTag /\
   C03gen.skel_dynbt_readString = C03_expected.skel_dynbt_readString /\
